@@ -16,7 +16,7 @@ use serde_json::{json, Value as J};
 use std::sync::OnceLock;
 
 const TOKENS: &[&str] = &[
-    "a", "b", "not", "and", "or", "true", "(", ")", "==", "!=", "<", "<=", ">", ">=", "*==", "->", "?", "5", "-1", "\"s\"", "@r", "^s", "`u`", "2021-01-01", "12:00:00", "-", "=",
+    "a", "b", "not", "and", "or", "true", "(", ")", "==", "!=", "<", "<=", ">", ">=", "*==", "->", "?", "5", "-1", "\"s\"", "@r", "^s", "`u`", "2021-01-01", "12:00:00", "-", "=", "-INF", "NaN", "5kW",
 ];
 
 struct CycleResolver {
@@ -359,7 +359,7 @@ pub fn child_params(job: &str) -> (u64, u64, usize) {
 
 pub fn run(tier: Tier) -> i32 {
     let mut run = Run::new("C09", tier, "fault_enumeration");
-    run.rule = "inputs: every sequence of <= 4/5 tokens over a 27-token alphabet (tags, keywords, every operator, literals of several kinds, stray '-' '=' '?') joined with and without spaces; every byte string <= 2/3 over all bytes; every prefix, substitution, deletion and insertion (23-byte alphabet) of ~280 printed filters; 8 nesting patterns ('(' , 'not ', 'a and ', 'a->', mixed) at every depth 1..256, 2^k(+1) up to 131072 and 10^5 on 8 MiB and 2 MiB stacks. Every input is parsed; every accepted filter is evaluated on 17 records with a resolver whose refs form 1- and 2-cycles over a namespace built from tests/defs/defs.zinc, printed and re-parsed. Oracle: returns — no panic, abort, stack overflow (exit status) or hang (6 s watchdog). non-trivial = distinct input of >= 2 bytes".into();
+    run.rule = "inputs: every sequence of <= 4/5 tokens over a 30-token alphabet (tags, keywords, every operator, literals of several kinds, stray '-' '=' '?') joined with and without spaces; every byte string <= 2/3 over all bytes; every prefix, substitution, deletion and insertion (23-byte alphabet) of ~280 printed filters; 8 nesting patterns ('(' , 'not ', 'a and ', 'a->', mixed) at every depth 1..256, 2^k(+1) up to 131072 and 10^5 on 8 MiB and 2 MiB stacks. Every input is parsed; every accepted filter is evaluated on 17 records with a resolver whose refs form 1- and 2-cycles over a namespace built from tests/defs/defs.zinc, printed and re-parsed. Oracle: returns — no panic, abort, stack overflow (exit status) or hang (6 s watchdog). non-trivial = distinct input of >= 2 bytes".into();
     run.assume("a case that does not finish within 6 s is a hang; crashes and hangs are confirmed in a fresh single-step child");
     crate::engine::quiet_panics();
     for (name, n, chunk) in jobs(tier) {
